@@ -24,6 +24,10 @@ type c05Params struct {
 	At       int         `json:"at"`       // evaluation m / body j / ms
 	Script   string      `json:"script"`   // "" | late-tick | slow-output
 	Desc     string      `json:"desc"`
+	// ReleaseMS > 0 (ending duration, blocking gated): the held bodies are released this long after max-duration
+	ReleaseMS int `json:"release_ms,omitempty"`
+	// BoundMS > 0 (ending limit): Do must return within this long after the N-th body started
+	BoundMS int `json:"bound_ms,omitempty"`
 }
 
 func c05FileYAML(c int, maxDur string, limit uint64, stages string) string {
@@ -175,6 +179,64 @@ func init() {
 				cse.TimeoutMS = 90000
 				cs = append(cs, cse)
 			}
+			// runs that last longer than their completion timeout and end with iterations that finish shortly after:
+			// the wait starts when triggering stops, not when the run started
+			nlw := 4
+			if tier == "thorough" {
+				nlw = 24
+			}
+			for i := 0; i < nlw; i++ {
+				mode := []string{"users", "constant", "custom", "file"}[i%4]
+				c := pick(r, 1, 2, 4)
+				p := c05Params{Ending: "duration", Blocking: "gated", ReleaseMS: 100 + r.IntN(100)}
+				switch mode {
+				case "users":
+					p.Spec = engine.Spec{Mode: "users", Concurrency: c}
+				case "file":
+					p.Spec = engine.Spec{Mode: "file", YAML: c05FileYAML(c, "1700ms", 0, "- duration: 1s\n  mode: constant\n  rate: 1/20ms\n- duration: 5s\n  mode: users\n")}
+				default:
+					p.Spec = engine.RateSpec(mode, c, 5, c)
+				}
+				p.Spec.MaxDurationMS, p.Spec.IgnoreDropped, p.Spec.CompletionMS = 1700, true, 1400
+				p.Desc = fmt.Sprintf("mode=%s c=%d ending=duration(1700ms) blocking=gated(released %dms after the end) completion=1400ms", mode, c, p.ReleaseMS)
+				cse := core.MkCase("C05", "run", 7000+i, seed, p)
+				cse.Race = i%2 == 0
+				cse.Procs = pick(r, 2, 16)
+				cse.TimeoutMS = 90000
+				cs = append(cs, cse)
+			}
+			// max-duration at or below the 10 ms guard: triggering is over before it begins, nothing is requested
+			for i, d := range []int{1, 6, 10} {
+				mode := []string{"constant", "custom", "staged"}[i%3]
+				p := c05Params{Ending: "duration", Blocking: "none"}
+				p.Spec = engine.RateSpec(mode, 2, 3, 4)
+				p.Spec.MaxDurationMS, p.Spec.IgnoreDropped, p.Spec.CompletionMS = d, true, 300
+				p.Desc = fmt.Sprintf("mode=%s c=4 ending=duration(%dms, inside the 10ms guard) blocking=none completion=300ms", mode, d)
+				cse := core.MkCase("C05", "run", 7100+i, seed, p)
+				cse.Race = i%2 == 0
+				cse.TimeoutMS = 90000
+				cs = append(cs, cse)
+			}
+			// config files with several rate stages whose limit is reached in the first: the run ends then,
+			// not when the remaining stages have elapsed
+			nfs := 3
+			if tier == "thorough" {
+				nfs = 12
+			}
+			for i := 0; i < nfs; i++ {
+				c := pick(r, 1, 2, 4)
+				N := uint64(c * (2 + r.IntN(4)))
+				p := c05Params{Ending: "limit", Blocking: "none", BoundMS: 2500}
+				st := fmt.Sprintf("- duration: 4s\n  mode: constant\n  rate: %d/20ms\n- duration: 4s\n  mode: constant\n  rate: %d/20ms\n- duration: 4s\n  mode: staged\n  stages: 0s:%d,4s:%d\n  iteration-frequency: 20ms\n", c, c, c, c)
+				p.Spec = engine.Spec{Mode: "file", YAML: c05FileYAML(c, "30s", N, st)}
+				p.Spec.MaxIterations, p.Spec.MaxDurationMS, p.Spec.IgnoreDropped, p.Spec.CompletionMS = N, 30000, true, 300
+				p.Desc = fmt.Sprintf("mode=file(3 rate stages of 4s) c=%d ending=limit(N=%d, reached in stage 1) blocking=none completion=300ms", c, N)
+				cse := core.MkCase("C05", "run", 7200+i, seed, p)
+				cse.Race = i%2 == 0
+				cse.Procs = pick(r, 2, 16)
+				cse.TimeoutMS = 90000
+				cs = append(cs, cse)
+			}
 			// cancellation lands while the users are being started
 			ncs := 6
 			if tier == "thorough" {
@@ -261,6 +323,7 @@ func c05Run(c *core.Case, o *core.Outcome) {
 	defer e.open()
 	setupEntered := make(chan struct{})
 	var cancelCall atomic.Int64 // log time (ns) of the cancel call / stop point
+	var nthStart atomic.Int64   // log time (ns) at which the N-th (last allowed) body started
 	markStop := func() {
 		if e.stopPoint.CompareAndSwap(false, true) {
 			cancelCall.Store(int64(e.l.Now()))
@@ -280,6 +343,9 @@ func c05Run(c *core.Case, o *core.Outcome) {
 		return func(t *f1testing.T) {
 			e.inflight.Add(1)
 			n := e.started.Add(1)
+			if p.BoundMS > 0 && uint64(n) == p.Spec.MaxIterations {
+				nthStart.Store(int64(e.l.Now()))
+			}
 			seq := e.l.Add("body.start", "", t.Iteration, 0, "")
 			defer func() {
 				e.inflight.Add(-1)
@@ -351,7 +417,12 @@ func c05Run(c *core.Case, o *core.Outcome) {
 	}
 	completion := time.Duration(p.Spec.CompletionMS) * time.Millisecond
 	// gated: release the bodies 60 ms after the stop point so that Do has to wait for them
-	if p.Blocking == "gated" {
+	if p.Blocking == "gated" && p.ReleaseMS > 0 {
+		go func() {
+			time.Sleep(time.Duration(p.Spec.MaxDurationMS+p.ReleaseMS) * time.Millisecond)
+			e.open()
+		}()
+	} else if p.Blocking == "gated" {
 		go func() {
 			for !e.stopPoint.Load() && e.ctx.Err() == nil {
 				select {
@@ -460,6 +531,24 @@ func c05Run(c *core.Case, o *core.Outcome) {
 		if p.Blocking == "gated" && e.started.Load() > 0 {
 			o.AddObs("stopped_with_inflight", 1)
 		}
+	}
+	if p.BoundMS > 0 {
+		if nthStart.Load() == 0 {
+			o.Inconc("the limit was not reached (%d started) (%s)", e.started.Load(), p.Desc)
+			return
+		}
+		if over := tRet - time.Duration(nthStart.Load()); over > time.Duration(p.BoundMS)*time.Millisecond {
+			viol("limit-reached-run-goes-on", "max-iterations %d was reached (the last allowed iteration started and finished at once), but Do returned only %v later - the remaining stages kept the run alive although nothing more can start (completion timeout %v, bound %d ms)", p.Spec.MaxIterations, over, completion, p.BoundMS)
+			return
+		}
+		o.AddObs("limit_bound_checked", 1)
+	}
+	if p.Ending == "duration" && p.Blocking == "none" && p.Spec.MaxDurationMS <= 10 {
+		if e.started.Load() != 0 {
+			viol("requested-inside-guard", "max-duration is %d ms, not more than the 10 ms guard: triggering stops before it begins, yet %d iterations started", p.Spec.MaxDurationMS, e.started.Load())
+			return
+		}
+		o.AddObs("guard_durations_checked", 1)
 	}
 	if p.Ending == "cancel-eval" && e.started.Load() > e.evalSum.Load() {
 		viol("requested-after-cancel", "the run was cancelled inside rate evaluation %d; the evaluations before it requested %d iterations in total, %d iteration functions were invoked: iterations were requested after the cancellation", p.At, e.evalSum.Load(), e.started.Load())
